@@ -97,7 +97,7 @@ def _case(ctx, cls, label):
         return {"target": "bounded.replay_helpers:set_existing_field", "args": [label, w["fieldname"], w["vlevel"], w["connected"], w["set_reference"], w["value_is_None"],
                                                                            w["value_is_placeholder"], w["value_is_valid"], w["lookup"]]}
     def confirm(w, out):
-        return out.get("kind") != "return" or out.get("value") is not True
+        return battery_confirm(w, out)
     return Case(label, [s, fieldname, value, set_ref], post, pre=pre, heap=heap, symbols=sym, models=models, minimize=[vlevel, lookup], expect_paths=6,
                 replay=replay, confirm=confirm)
 
